@@ -280,6 +280,28 @@ def stale_cases(rng: random.Random, limit: int, closed_only: bool = False) -> li
     return cases
 
 
+def damaged_local_cases() -> list[dict]:
+    """The local store holds an unprotected object whose bytes do not match its name (an interrupted write, an edit through
+    a link) - as the destination of a fetch and as the source of a push, closed requests, shallow and expanded."""
+    cases = []
+    allo = FILES + list(DIRS)
+    reqs = [["d1", "f1", "f2"], ["d2", "f2", "f3"], ["d1", "d2", "f1", "f2", "f3"], ["f1"], ["f3"]]
+    for bad in FILES:
+        for req in reqs:
+            for shallow in (True, False):
+                # fetch: the remote is complete, the cache holds a damaged copy of one file (and nothing else, or everything)
+                for have in ([bad], allo):
+                    cache = {x: ("bad_u" if x == bad else "ok_p") for x in have}
+                    cases.append({"init": {"remote": {x: "ok_u" for x in allo}, "cache": cache},
+                                  "ops": [{"op": "Transfer", "src": "remote", "dst": "cache", "req": req, "shallow": shallow, "idx": False, "F": []}],
+                                  "kind": "damaged-dst", "useed": len(cases) % 3})
+                # push: the cache is complete but for one damaged file
+                cases.append({"init": {"cache": {x: ("bad_u" if x == bad else "ok_p") for x in allo}, "remote": {}},
+                              "ops": [{"op": "Transfer", "src": "cache", "dst": "remote", "req": req, "shallow": shallow, "idx": False, "F": []}],
+                              "kind": "damaged-src", "useed": len(cases) % 3})
+    return cases
+
+
 def transfer_cases(gen: dict, rng: random.Random, quick: bool) -> list[dict]:
     """From every TLC-generated (init, request, mode, failing set): the faulty run followed by a
     fault-free retry, and the same with the run killed before its k-th upload for every k."""
@@ -534,6 +556,7 @@ def check_C11(run: core.Run, replay=None):
             cases.append({"init": c["init"], "ops": [xfer_op(c)], "kind": "xfer", "useed": len(cases) % 3})
         cases += sim_cases("ObjectStore_sim_xfer.cfg", 100 if quick else 1000, 24, run.seed + 2)
         cases += stale_cases(rng, 300 if quick else 10**9)
+        cases += damaged_local_cases()
         run.extra["generated_cases"] = {**{k: len(v) for k, v in gen.items()}, **{k: len(v) for k, v in gx.items()}}
     traces = execute(cases, run.seed)
     return _finish(run, traces,
